@@ -814,9 +814,13 @@ func (x *gen) boundary() {
 		}
 		emit(built{kind: "cfcheckpt", msg: &wire.MsgCFCheckpt{FilterHeaders: x.hashes(n)}}, 70016)
 	}
-	// a message whose payload is exactly MaxProtocolMessageLength, and one byte more (thorough: 8 MB of hex each)
-	if big {
-		for _, d := range []int{0, 1} {
+	// a message whose payload is exactly MaxProtocolMessageLength (quick: through ReadMessage only), and one byte more
+	{
+		ds := []int{0}
+		if big {
+			ds = []int{0, 1}
+		}
+		for _, d := range ds {
 			m := &wire.MsgReject{Cmd: "x", Code: 1, Reason: string(make([]byte, 4000000-2-1-5+d))}
 			var w bytes.Buffer
 			m.BtcEncode(&w, 70016, wire.BaseEncoding)
@@ -824,8 +828,10 @@ func (x *gen) boundary() {
 			net := uint32(wire.MainNet)
 			st := frameMsg(net, []byte("reject"), uint32(len(p)), chainhash.DoubleHashB(p)[:4], p)
 			x.msgCase("boundary", 70016, net, "b", st)
-			x.emit("boundary", true, fmt.Sprintf("C08 api 70016 %d %s", net, hx(st)))
-			x.emit("boundary", true, fmt.Sprintf("C08 v2 70016 b %s", hx(append(append([]byte{0}, frameCmd("reject")...), p...))))
+			if big {
+				x.emit("boundary", true, fmt.Sprintf("C08 api 70016 %d %s", net, hx(st)))
+				x.emit("boundary", true, fmt.Sprintf("C08 v2 70016 b %s", hx(append(append([]byte{0}, frameCmd("reject")...), p...))))
+			}
 		}
 	}
 	// 0xffff / 0x10000 inputs-outputs-witness items (one each; a few MB in thorough only)
@@ -1229,6 +1235,20 @@ func (x *gen) helperAPIs() {
 			if p, ok := x.payload(bb, 70016, "b"); ok && len(p) < 20000 {
 				subs = append(subs, fmt.Sprintf("%s/70016/b/%s", k, hx(p)))
 			}
+		}
+	}
+	// many small fixed-width messages at once: every integer goes through the shared 8-byte scratch-buffer free list
+	for i := 0; i < x.g.N(4, 30); i++ {
+		var small []string
+		for j := 0; j < 16; j++ {
+			k := []string{"version", "ping", "pong", "feefilter", "version", "getcfilters"}[r.Intn(6)]
+			bb := x.build(k)
+			if p, ok := x.payload(bb, 70016, "b"); ok && len(p) < 340 {
+				small = append(small, fmt.Sprintf("%s/70016/b/%s", k, hx(p)))
+			}
+		}
+		if len(small) >= 8 {
+			x.emit("multi-c-small", true, "C08 multi c "+joinWith(small, "|"))
 		}
 	}
 	// results are values (decode all, observe afterwards) and no hidden shared state (>= 8 goroutines)
